@@ -583,6 +583,6 @@ func (w *world) probes(rec *h.Rec) {
 	}
 }
 
-var propThreshold = h.NewProp("TestPropThreshold", h.Budget{Quick: 8000, Thorough: 200000}, genCase, runCase)
+var propThreshold = h.NewProp("TestPropThreshold", h.Budget{Quick: 8000, Thorough: 120000}, genCase, runCase)
 
 func TestPropThreshold(t *testing.T) { propThreshold.Check(t) }
